@@ -11,6 +11,13 @@ model checking
            every reachable control state, both allow_empty_author settings: Total, Deterministic,
            CascadeAgrees (guard table = if/elif cascade), StrictIffWarn (the strict run is the lenient
            run cut at the first warning), SlurpOnlyFromHeading, TrailingHasTarget; end-of-input rule.
+           PayloadFree (round 6): the report of a warning branch QUOTES a piece of the offending line (Quoted: the
+           whole line -- HJunk, CJunk, the rejected bare ' --', the one-space trailer --, one key=value item, the
+           urgency value, the folded key); that piece is data: for every class in every reachable state the outcome
+           of the report (Report: none / report / crash) is the same for every payload kind (PayloadKinds = plain |
+           fmt: the free-text pieces of the line hold text that means something to a formatting mini-language --
+           '%', '%s', '%d', '%(x)s', '{}', '{0}', lone braces, backslash escapes, '$x').  In the domain: the statement
+           quantifies over every input text and junk lines are named in its quantifier.
    text    bounded: every text of <= 5 lines (thorough: <= 7 lines) obtained from a well-formed one
            by one mutation (thorough also: <= 4 lines by two mutations) -- insert a line of any class,
            delete or duplicate a line -- and every prefix of it: NormalForm (Formattable(D) => Blocks(Parse(Format(D))) = Blocks(D) /\\ Format(Parse(
@@ -20,7 +27,8 @@ model checking
            from a short (mutated) text: NormalFormEdited.
            Spec-level negative controls (all in the thorough tier, the first and the fourth in the
            quick tier; each must make TLC report the named invariant): Bug = "noBranch:CNoDetailsReject" ->
-           Total; "twoBranches" -> Deterministic; "strictSkips:CEnd" -> StrictIffWarn;
+           Total; "twoBranches" -> Deterministic; "strictSkips:CEnd" -> StrictIffWarn; "diagFormats:CJunk" (quick and
+           thorough: the report of the branch uses the quoted line as a format string) -> PayloadFree;
            "trailingFirst" -> NormalForm; "authorOnTruncated" (drops the domain guard) ->
            NormalFormEdited.
    hist    formatting as part of the history (shared with C04): on every two-block changelog parsed from
@@ -51,7 +59,13 @@ binding:   (a) every edge of the closed LTS (control state x class) is replayed:
                the end-of-input rule is silent, so that every warning kind is also seen as the ONLY
                warning of a text), concretized, parsed before and after the line; the
                predicted incremental output (warning, block opened / closed, where the line went) is
-               compared with the real parser (diagnostic), the C15 laws are verdicts;
+               compared with the real parser (diagnostic), the C15 laws are verdicts; every edge carries the payload
+               kinds of the specification and the outcome of its report per kind (EDGE fields q, rep): it is replayed in
+               canonical form, with random payloads and with the kind "fmt" -- the edge's own line and the completion
+               are written by cc.conc_haz, which puts format-string hazards (cc.FMT_HAZ) into every free-text piece of
+               a line of ANY class (heading comment / items / urgency value, change text, maintainer name and address,
+               mode lines, keywords, comments, old-format markers 1 - 5, junk); "the quoted line is in a message,
+               verbatim" is a diagnostic;
            (b) every CASE text of the bounded configuration x both allow_empty_author settings,
                concretized (eight old-format shapes, editor mode lines, $Id$ keywords, '# ' and
                '/* */' comments, one-space trailers, bare ' --', junk, defective headers);
@@ -104,6 +118,20 @@ binding:   (a) every edge of the closed LTS (control state x class) is replayed:
                change line; each through a rotating file-object kind; the C15 laws plus FormsAgree (same
                blocks / same "does it warn" as the str form).  ctx.extra["aligned_cases"],
                ctx.extra["file_object_kinds"].
+           format-string hazards: besides the "fmt" edges every fourth bounded text and process history is written
+               with hazards in every line, every generator of lines, authors and change texts (mutations of the recorded
+               traces, single defects, editing calls, C04's texts as well) draws them now and then.
+           faults of caller-supplied inputs (notes/SIZE_STRESS.md part 5; harness/changelog_faults.py, shared with C04):
+               the constructor / parse_changelog iterate over an object of the caller.  A FAULT STEP -- a faulting twin
+               of an input (the iterator / readline raises OSError, ValueError, KeyError or a private exception at the
+               first / a middle / the last line; the input ends early at a line end, inside a line, inside a multi-byte
+               character; every input form) is parsed strict or lenient -- is an ordinary step of the histories: (i)
+               between two calls (or before the first) of the strict / lenient call order of one text in four, in every
+               leg (cc.run_calls), by a new object, on the same or another text; (ii) among the earlier parses of the
+               object under test in the forms reused_text / reused_obj (cc.prior_parses).  The faulted call itself is
+               never judged by C15 (the statement speaks of input TEXTS; what came out is evidence: fault_steps); the
+               calls after it -- same object, other objects, new objects -- are judged like all others (spec: a parse
+               depends on its own input only; Mode "reuse" enumerates rs.carry for C04, Mode "proc" keeps rs.memo empty).
            characters: notes/SIZE_STRESS.md part 2 (non-NFC text and twins, case-mapping hazards, U+FEFF at
                the start of a text / line, joiners, non-BMP, look-alike white space inside tokens, tab
                indentation).
@@ -146,6 +174,10 @@ API surface (notes/API_SURFACE.md):
    the same with v = None                                                  (c) unset configuration, edit traces
    cl.version = valid version + white space                                SetVersionWS (unspecified-but-consistent)
    block.other_pairs[k] = v, block.changes() edited in place, add_trailing_line   (c'), edit traces
+   the same with a FAULTING file object / iterator (raises at line k, early EOF, EOF inside a character)
+                                                                           fault steps of the call histories (never judged themselves;
+                                                                           the following calls are), earlier parses of reused objects
+   payload of a line (any class): plain / format-string hazards            lts edges x PayloadKinds (TLC), every 4th text / history
    max_blocks, encoding != utf-8                                           only in the unjudged earlier parses of a reused object
                                                                            (out of the statement: it speaks of the whole text)
 unspecified: author / date assigned to a block that has no trailer because the input ended inside it
@@ -165,7 +197,7 @@ from lts import skey
 MANIFEST = dict(
     technique="TLA+ spec Changelog (parse_changelog as five-state automaton over 24 line classes with incremental outputs, EOF / empty-file rules, formatter, editing calls) model-checked by TLC: closed LTS (Total, Deterministic, StrictIffWarn) and bounded mutated texts / edit histories (NormalForm); every LTS edge, every bounded text and every edit history replayed into Changelog with both allow_empty_author settings; prefix-closure traces of mutated changelogs and random edit histories validated by TLC (TraceChangelog)",
     text="TLC explores the closed control-state space of the parser (5 states x flags, 24 line classes, both allow_empty_author settings) and checks that exactly one branch handles every class in every state, that the if/elif cascade equals the guard table, and that a strict run raises exactly when the lenient run has warned, including the end-of-input and empty-file rules. A bounded configuration enumerates every text of up to 6 lines that is one or two line mutations (insert any class, delete, duplicate) away from a well-formed changelog, plus all prefixes, and checks that whatever the parser builds, if it can be formatted, formats to a fixpoint of parse-then-format with the same blocks; an edit configuration does the same after up to 4 editing calls on empty or parsed changelogs. All of these texts and histories are concretized (old-format markers, mode lines, keywords, comments, one-space and bare trailers, junk, defective headers) and replayed into the real class: the lenient constructor must return, warnings > 0 must coincide with ChangelogParseError from the strict constructor, and str() output must re-parse to the same blocks and the identical text. Random mutated changelogs of up to 60 lines and random editing histories are recorded by prefix closure with independently classified lines and validated by TLC.",
-    note="Round 5: a parse depends on nothing but its own input also across the parses of one PROCESS (Mode proc: every text is parsed several times, strict / lenient in every order TLC enumerates, the statement is read across the calls; negative controls HeadingMemo / DiagOnce); None as an edit value is in the domain with the weak law 'unformattable or a normal form' (negative control unsetFormatsEmpty); file-object kinds and block-boundary alignment per notes/SIZE_STRESS.md part 4. Small scope: closed LTS over classes (unbounded length), normal-form law exhaustively for <= 6 lines / <= 2 mutations / <= 4 edits; longer inputs sampled. The C15 verdicts are the self-consistency laws of the statement; TLC's predictions of warnings, counts and contents are diagnostics (drift). Unspecified: author/date assigned on a block without trailer. Lines never contain a str.splitlines() boundary character (DESIGN D1); editing calls get well-formed values (D3). Thirteen spec-level negative controls (among them the two formatter caches of the round-2 seeded changes, the process-level heading memo and the empty version of round 5) and corrupted control traces are required to fail (quick tier: six of them). Formatting is part of every history (formatted before and between edits, edits on older blocks and in place); sizes follow notes/SIZE_STRESS.md.",
+    note="Round 6: the diagnostics quote pieces of the input line, which are data whatever characters they hold (PayloadFree over PayloadKinds plain / fmt in the closed configuration, every edge replayed with format-string hazards -- percent directives, braces, backslash escapes -- in every free-text piece of lines of every class; negative control diagFormats:CJunk); faults of caller-supplied inputs are unjudged steps of the call histories (notes/SIZE_STRESS.md part 5). Round 5: a parse depends on nothing but its own input also across the parses of one PROCESS (Mode proc: every text is parsed several times, strict / lenient in every order TLC enumerates, the statement is read across the calls; negative controls HeadingMemo / DiagOnce); None as an edit value is in the domain with the weak law 'unformattable or a normal form' (negative control unsetFormatsEmpty); file-object kinds and block-boundary alignment per notes/SIZE_STRESS.md part 4. Small scope: closed LTS over classes (unbounded length), normal-form law exhaustively for <= 6 lines / <= 2 mutations / <= 4 edits; longer inputs sampled. The C15 verdicts are the self-consistency laws of the statement; TLC's predictions of warnings, counts and contents are diagnostics (drift). Unspecified: author/date assigned on a block without trailer. Lines never contain a str.splitlines() boundary character (DESIGN D1); editing calls get well-formed values (D3). Fourteen spec-level negative controls (among them the two formatter caches of the round-2 seeded changes, the process-level heading memo and the empty version of round 5) and corrupted control traces are required to fail (quick tier: seven of them). Formatting is part of every history (formatted before and between edits, edits on older blocks and in place); sizes follow notes/SIZE_STRESS.md.",
     design="5 (C15)")
 
 SUBSET = '{"Junk", "EndNoDetails", "EndOneSpace", "Vim", "HashComment", "TopBadKV", "Old8"}'
@@ -807,6 +839,8 @@ def run(ctx):
     ctx.sample("edit history: text %s aea=%s ops=%s; TLC: formattable=%s specified=%s" % (
         "/".join(k[0]), k[1], "/".join(k[2]), ecases[k]["fmt"], ecases[k]["spec"]))
 
+    import changelog_faults as cf
+    ctx.extra["fault_steps"] = cf.stats()           # what came out of the faulted parses (never judged)
     lap("replay_edits")
     # ---- (d) code -> spec (recorded before, validated by TLC in parallel with the model checking)
     viol, drift, info = f_traces.result()
